@@ -761,7 +761,9 @@ def estimate_symbolic_duration(
     if qdur == 0:
         return {}
     i = find_nearest(DURS, qdur)
-    if np.abs(qdur - DURS[i]) < eps:
+    # the tolerance is applied in divisions: in quarters it would accept
+    # neighbouring values for fine divisions (e.g. 11/480 as a dotted 256th)
+    if np.abs(dur - DURS[i] * div) < eps:
         return SYM_DURS[i].copy()
     else:
         # Note when the duration is not found, the we are left with two solutions:
@@ -769,7 +771,7 @@ def estimate_symbolic_duration(
         # 2. The duration is a composite duration
         # For composite duration. We can use the following approach:
         j = find_nearest(COMPOSITE_DURS, qdur)
-        if np.abs(qdur - COMPOSITE_DURS[j]) < eps:
+        if np.abs(dur - COMPOSITE_DURS[j] * div) < eps:
             if return_com_durations:
                 return copy.copy(SYM_COMPOSITE_DURS[j])
             else:
